@@ -61,6 +61,12 @@ def cases():
                     ['symlink', 'patch-behind-the-failing-one'], first_fail=0, props=('C05', 'C06'),
                     expect={'exit': '1', 'applied': [], 'tree': fs, 'rejects': ['g.rej']}))
 
+    # ---- a directory reached through a link that stays inside: emptying it must not stop the push
+    fl = dict(F, **{'real/only': (b'x\ny\n', 0o644), 'd': (b'real', 'link')})
+    out.append(Case('last file of a directory reached through a symbolic link deleted', fl, {'p0.patch': delete(b'd/only', [b'x', b'y']), 'p1.patch': mod(b'g', b'g', 2, b'G2')}, ['p0.patch', 'p1.patch'],
+                    ['symlink', 'directory-emptied-through-a-link'], first_fail=None, props=('C05', 'C06', 'C09'),
+                    expect={'exit': '0', 'applied': ['p0.patch', 'p1.patch'], 'tree': {'f': F['f'], 'keep': F['keep'], 'g': (_apply(b'g', 2, b'G2'), 0o755), 'd': (b'real', 'link')}, 'rejects': []}))
+
     # ---- something is wrong with a patch behind the failing one: the push ends at the failing patch all the same
     bad_later = {
         'missing patch file': None,
